@@ -23,7 +23,7 @@ import ast
 import itertools
 from .core import AnalysisError, Repo, CLASSES, src, walk_no_nested, is_self_attr
 from .ordertype import OrderType, enumerate_order_types, Undetermined
-from .absint import (Interp, Int, Const, NONE, NodeV, SelfV, ListObj, DictObj, RangeV, LoopVar, AbstractRaise,
+from .absint import (NeedZero, Interp, Int, Const, NONE, NodeV, SelfV, ListObj, DictObj, RangeV, LoopVar, AbstractRaise,
                      Unsupported, Fork, run_all_choices, Opaque)
 from .world_graph import GraphWorld
 
@@ -100,6 +100,7 @@ class MergeChecker:
         self.n_runs = 0
         self.cases_seen = {}
         self.samples = []
+        self.zero = False
         params = [a.arg for a in self.fn.args.args]
         if params[:3] != ["self", "u", "v"] or "t" not in params or "e" not in params:
             raise AnalysisError("%s: unexpected signature %s" % (self.construct, params))
@@ -113,11 +114,23 @@ class MergeChecker:
         self.findings[k]["count"] += 1
 
     def run(self):
+        """Decide every world; if the body compares a time with an integer literal the whole
+        enumeration is repeated with the symbol '0' in every order type."""
+        try:
+            return self._run(zero=False)
+        except NeedZero:
+            self.findings, self.n_worlds, self.n_ordertypes, self.n_runs = {}, 0, 0, 0
+            self.cases_seen, self.samples = {}, []
+            self.zero = True
+            return self._run(zero=True)
+
+    def _run(self, zero):
+        self.zero = zero
         # the missing-t world
         self._run_missing_t()
         for cfg, syms, cons in worlds_for(self.directed, self.R):
             cfg = dict(cfg, cls=self.cls, directed=self.directed)
-            ots = enumerate_order_types(syms, cons, self.R)
+            ots = enumerate_order_types(syms + (["0"] if zero else []), cons, self.R)
             self.n_worlds += 1
             for ot in ots:
                 if cfg["exists"] and cfg["removal"] and not cfg.get("closed"):
@@ -149,6 +162,8 @@ class MergeChecker:
                            has_prefix=False, closed=False, L="uv")
                 syms = (["E"] if has_e else []) + (["a", "b"] if exists else [])
                 cons = [("a", 0, "<=", "b", 0)] if exists else []
+                if self.zero:
+                    syms = syms + ["0"]
                 for ot in (enumerate_order_types(syms, cons, self.R) if syms else [OrderType([], [], self.R)]):
                     def once(ch, cfg=cfg, ot=ot):
                         w = GraphWorld(cfg, ot, ch, self.methods)
